@@ -11,7 +11,7 @@ REPO = os.environ.get("VERIF_REPO", "/repo")
 BUILD = os.environ.get("VERIF_BUILD") or os.path.join(ROOT, "build")
 COQ = os.path.join(ROOT, "coq")
 THEORIES = os.path.join(COQ, "theories")
-EVID = os.path.join(ROOT, "evidence")
+EVID = os.path.join(BUILD, "evidence") if os.environ.get("VERIF_BUILD") else os.path.join(ROOT, "evidence")   # scratch runs keep the committed evidence untouched
 REPLAY_DIR = os.path.join(BUILD, "replay")
 GUARD = "PARMCB_VERIF"
 NPROC = min(16, os.cpu_count() or 4)
@@ -130,7 +130,15 @@ def coq_make(timeout=3000, targets=None):
     import fcntl
     os.makedirs(BUILD, exist_ok=True)
     with open(os.path.join(COQ, ".make.lock"), "w") as lk:
-        fcntl.flock(lk, fcntl.LOCK_EX)
+        # wait for a concurrent build, but not for ever: after 90 s go ahead (make only rebuilds out-of-date targets,
+        # so two builds collide only if both need the same stale file)
+        t_wait = time.time()
+        while True:
+            try:
+                fcntl.flock(lk, fcntl.LOCK_EX | fcntl.LOCK_NB); break
+            except OSError:
+                if time.time() - t_wait > 90: break
+                time.sleep(1)
         txt = _coqproject_text()
         cp = os.path.join(COQ, "_CoqProject")
         regen = not os.path.exists(os.path.join(COQ, "Makefile"))
@@ -144,7 +152,8 @@ def coq_make(timeout=3000, targets=None):
             vo = v + "o"
             if os.path.exists(vo) and os.path.getmtime(vo) < os.path.getmtime(v):
                 os.remove(vo)
-        rc, so, se = sh("make -k -j%d %s" % (NPROC, " ".join(targets or [])), cwd=COQ, timeout=timeout)
+        # every single coqc is limited to 6 minutes (a file that takes longer counts as not compiling)
+        rc, so, se = sh("make -k -j%d TIMECMD='timeout 360' %s" % (NPROC, " ".join(targets or [])), cwd=COQ, timeout=timeout)
         return rc == 0, (so + se)[-4000:]
 
 
@@ -176,8 +185,8 @@ def prove(theorem_files):
     bad = textual_scan()
     if bad:
         res["problems"] += ["forbidden: " + b for b in bad]
-    ok, log = coq_make()
-    res["full_build_ok"] = ok          # a failure elsewhere in the development matters only if this property's files need it
+    ok, log = coq_make(targets=["theories/%so" % tf for tf in theorem_files])   # builds exactly what these files depend on
+    res["full_build_ok"] = ok
     for tf in theorem_files:
         path = os.path.join(THEORIES, tf)
         src = strip_comments(open(path).read())
@@ -232,12 +241,15 @@ def ensure_model(group=None):
     drv = os.path.join(ROOT, "ocaml", "driver%s.ml" % sfx)
     common = os.path.join(ROOT, "ocaml", "common.ml")
     srcs = sorted(f for f in glob.glob(os.path.join(THEORIES, "*.v")) if not re.search(r"(Proofs|Lemmas|Properties_\w+)\.v$", f)) + [ex_v, drv] + ([common] if group else [])
-    key = file_hash(srcs)
+    fl = os.path.join(ROOT, "ocaml", "driver%s.flags" % sfx)          # optional per-group ocamlfind flags
+    xflags = open(fl).read().strip() if os.path.exists(fl) else ""
+    key = file_hash(srcs) + xflags
     stamp = os.path.join(BUILD, "model%s.stamp" % sfx)
     exe = os.path.join(BUILD, "model" + sfx)
     if os.path.exists(exe) and os.path.exists(stamp) and open(stamp).read() == key:
         return True, ""
-    coq_make()
+    req = re.findall(r"From Parmcb Require (?:Import|Export) ([^.]*)\.", strip_comments(open(ex_v).read()))
+    coq_make(targets=["theories/%s.vo" % m for r in req for m in r.split()])
     rc, so, se = sh(["coqc", "-Q", THEORIES, "Parmcb", ex_v], cwd=od, timeout=1200)
     if rc != 0:
         return False, "extraction failed: " + (so + se)[-2000:]
@@ -245,7 +257,7 @@ def ensure_model(group=None):
     files = "model.mli model.ml driver.ml"
     if group:
         shutil.copy(common, od); files = "model.mli model.ml common.ml driver.ml"
-    rc, so, se = sh("ocamlfind ocamlopt -O3 -w -a %s -o %s" % (files, exe), cwd=od, timeout=600)
+    rc, so, se = sh("ocamlfind ocamlopt -O3 -w -a %s %s -o %s" % (xflags, files, exe), cwd=od, timeout=600)
     if rc != 0 or not os.path.exists(exe):
         return False, "ocaml build failed: " + (so + se)[-2000:]
     open(stamp, "w").write(key)
